@@ -89,9 +89,16 @@ class Opener:
     def __init__(self):
         self.reqs = []
         self.fail_next = False
+        self.empty_next = False
 
     def open(self, request):
         self.reqs.append(request)
+        if self.empty_next:
+            # the server answers 200 with an empty body (as many do for DELETE and PUT)
+            self.empty_next = False
+            resp = Resp(request.method)
+            resp.data = b""
+            return resp
         if self.fail_next:
             self.fail_next = False
             raise urllib.error.HTTPError(request.full_url, 503, "unavailable", {}, ErrBody(request.method))
@@ -199,6 +206,14 @@ class MA(MCallerHttp):
         """a wrapper that works with either of two components: each caller class knows one of them"""
         return self.get_conn().get("/m/x", **kw)
 
+    def _send(self, **kw):
+        """a plain helper of the caller class (no wrapper): the wrappers of several components share it"""
+        return self.get_conn().post("/m/h", **kw)
+
+    @method_http(None, 'ca')
+    def call_helper_a(self, **kw):
+        return self._send(**kw)
+
     @method_http(None, 'ca')
     def call_this(this, **kw):
         """a wrapper whose author calls the first parameter 'this'"""
@@ -219,6 +234,10 @@ class MB(MCallerHttp):
     def call_takes_lazy(self, **kw):
         """a wrapper of component 'cb' that takes the result of the lazy wrapper of component 'ca'"""
         return next(self.call_lazy(**kw))
+
+    @method_http(None, 'cz')
+    def call_helper_z(self, **kw):
+        return self._send(**kw)
 
     @method_http(None, 'cb')
     def call_nested_this(me, **kw):
@@ -378,11 +397,11 @@ def expected(address, layers, path, method, params, data, headers):
     return url, method, hdr, body, rec
 
 
-def expected_return(layers):
+def expected_return(layers, body=None):
     """what the request returns: the decoded body pushed through the response processors in
     reverse order of the adapters"""
     order = [a for layer in reversed(layers) for a in layer]
-    rv = dict(RESPONSE)
+    rv = dict(RESPONSE) if body is None else body
     for a in reversed(order):
         if a[0] == 'unwrap' and isinstance(rv, dict) and a[1] in rv:
             rv = rv[a[1]]
@@ -513,9 +532,15 @@ def _run_history(ctx, rng, case):
                 n_before = len(op.reqs)
                 del log_save
             raw = rng.random() < 0.12
+            empty_body = not raw and rng.random() < 0.1
+            if empty_body:
+                op.empty_next = True
+                ctx.count("requests_answered_with_an_empty_body")
             try:
                 ret = getattr(c, verb)(path, params=params, data=data, headers=headers, **({'raw_response': True} if raw else {}))
+                op.empty_next = False
             except Exception as err:
+                op.empty_next = False
                 if own_auth and layer_auth and len(op.reqs) == n_before:
                     # the caller's own Authorization header meets an authenticating layer: refusing the request
                     # is fine, sending it with the caller's value is not
@@ -524,7 +549,7 @@ def _run_history(ctx, rng, case):
                 fail("request-raises", {"step": tag, "type": type(err).__name__, "msg": str(err)[:150]})
             if len(op.reqs) != n_before + 1:
                 fail("not-exactly-one-request-sent", {"step": tag, "sent": len(op.reqs) - n_before})
-            want_ret = expected_return(lay)
+            want_ret = expected_return(lay, "" if empty_body else None)
             if raw:
                 # (the response object itself goes through the processors - which are still all called)
                 ctx.count("raw_responses_requested")
@@ -637,6 +662,9 @@ def _run_history(ctx, rng, case):
                                                ("call_a", [[('prefix', '/cmpA')]], "/m/a", "POST"),
                                                ("call_same", [[('prefix', '/cmpA')]], "/m/s", "POST"),
                                                ("call_nested", [], "m/b", "GET"),
+                                               ("call_helper_a", [[('prefix', '/cmpA')]], "/m/h", "POST"),
+                                               ("call_helper_z", [[('prefix', '/cmpZ')]], "/m/h", "POST"),
+                                               ("call_helper_a", [[('prefix', '/cmpA')]], "/m/h", "POST"),
                                                ("call_this", [[('prefix', '/cmpA')]], "/m/t", "POST"),
                                                ("call_nested_this", [[('prefix', '/cmpA')]], "/m/t", "POST"),
                                                ("call_lazy", [[('prefix', '/cmpA')]], "/m/l", "POST"),
